@@ -5,6 +5,7 @@ CONSTANTS
   MaxComp = 3
   Table <- MCTable
   RemapPool <- MCRemapPool
+  RemapPairs <- MCRemapPairs
 INIT Init
 NEXT Next
 INVARIANTS TypeOK WalkMeetsContract Emit
